@@ -78,7 +78,7 @@ PROPS.update({
         "technique": "property-based round trip (rapid) over producer-option x stream-history products, canonical-multiset oracle, default consumer",
         "level_text": "Generated-input search over configurations x histories: every batch of every history, encoded under every drawn option set, must decode with a default consumer to the canonical multiset that was encoded. Because every option set is compared with the same option-independent canon(input), equality across option sets (the metamorphic reading) is implied. The evidence carries the histogram of index-width transitions (8>16, 16>32, overflow, reset) actually taken.",
         "design_ref": "DESIGN.md §7 C04",
-        "rule": "rapid draws producer options and a 1-8 batch single-signal history (ramp and rich batches); NON-TRIVIAL = the observer saw a dictionary upgrade, overflow or reset, or a schema update after the first batch; DISTINCT = FNV-64 of (option set, per-batch signal/size bucket/new observer event kinds)",
+        "rule": "rapid draws producer options and a 1-8 batch history (ramp and rich batches; a quarter of the histories interleave the three signals on the producer, with the precondition of known finding shared-writer-trailing-nul excluded by construction; a big plan crosses 65,535 by script, half of it in the reset regime); NON-TRIVIAL = the observer saw a dictionary upgrade, overflow or reset, or a schema update after the first batch; DISTINCT = FNV-64 of (option set, per-batch signal/size bucket/new observer event kinds)",
         "assumptions": OPTION_ASSUME + ["single-signal histories (interleaving is C12/C15's domain)", "strings are valid UTF-8, timestamps <= 2^63-1, nesting <= 16",
                                         "known finding dict-reset-trailing-nul (arrow-go ApproxEqual strips trailing NULs when the IPC writer compares dictionaries) is probed by TestKnownC04 with its specific history; the generators cannot produce its predicate (ramp strings never end in NUL; a reset needs >=128 matching entries)"],
         "jobs": {
@@ -103,7 +103,7 @@ PROPS.update({
         "technique": "property-based validity predicate (rapid): an independent arrow-go IPC mirror reader judges the producer output alone over generated option x interleaved-signal histories",
         "level_text": "Generated-input search with a validity predicate on the emitted BatchArrowRecords only: batch ids 0,1,2..; payload[0] is the signal's main record; each payload type at most once; related payloads non-empty; schema id -> (payload type, Arrow schema) is a function and an id never returns after its payload type moved on; per schema id the payloads, incrementally and re-read from the concatenation, are one valid Arrow IPC stream for a reader that shares no code with pkg/otel.",
         "design_ref": "DESIGN.md §7 C12, §5 mirror reader",
-        "rule": "rapid draws options and a 1-10 batch history with signals interleaved on one producer; NON-TRIVIAL = a schema id was retired, a dictionary reset happened under an unchanged schema, or signals were interleaved; DISTINCT = FNV-64 of (options, per-batch signal/size/payload-count/new events)",
+        "rule": "rapid draws options and a 1-10 batch history with signals interleaved on one producer (12 % long histories of 12-30 batches, 2 % fan-cross histories in which a related record crosses 65,535 dictionary entries while the main record stays small); the mirror reader also checks every dictionary index against the dictionary transmitted so far; NON-TRIVIAL = a schema id was retired, a dictionary reset happened under an unchanged schema, or signals were interleaved; DISTINCT = FNV-64 of (options, per-batch signal/size/payload-count/new events)",
         "assumptions": OPTION_ASSUME + ["the independent reader is arrow-go's ipc.Reader (one per schema id) - the Arrow library itself is trusted", "batches the producer refuses emit nothing and consume no batch id"],
         "jobs": {
             "quick": [{"test": "TestC12", "shards": 8, "checks": 4800, "timeout": 900}],
@@ -142,7 +142,7 @@ PROPS.update({
         "technique": "fault enumeration inside a rapid property: every single payload-level fault on every payload of the damaged batch of each generated session, plus generated fault combinations; validity-predicate oracle",
         "level_text": "For each generated session (valid prefix of 0-3 batches from producer P1 so the consumer holds reader/dictionary state, the damaged batch, 0-2 follow-up producers on fresh renamed sub-streams) EVERY single fault - relabel to each of the 32 enum/undefined payload types, drop, duplicate (appended and adjacent), empty, unknown schema id, stale (retired) schema id, swap with each other payload - is applied to every payload and run against a fresh real consumer; random pairs/triples follow, also on follow-up producers. Oracle: no panic (recover wrapper, Close included); success with an untouched main payload returns as many items as the main record has rows; unaltered batches on intact sub-streams decode to canon(input).",
         "design_ref": "DESIGN.md §7 C07",
-        "rule": "sessions are rapid-generated (signal, depth, canned-or-generated batches, follow-up producers); within a session single faults are enumerated exhaustively and 4-12 random combinations drawn; evaluations = damaged-batch decodes; NON-TRIVIAL = every applied fault except a stale-id fault without any valid prefix; DISTINCT = FNV-64 of (signal, prefix depth, fault kind, payload type hit) resp. (signal, depth, sorted kinds of the combination)",
+        "rule": "sessions are rapid-generated (signal, depth, canned-or-generated batches, follow-up producers); within a session single faults are enumerated exhaustively (relabel and duplicate-and-relabel to every enum value, drop, duplicate, empty, unknown id, EVERY retired id, swaps) and 4-12 random combinations drawn (later faults may address appended copies); 15 % of the sessions have a 4-10 batch prefix, a quarter of the batches are bare (items only); evaluations = damaged-batch decodes; NON-TRIVIAL = every applied fault except a stale-id fault without any valid prefix; DISTINCT = FNV-64 of (signal, prefix depth, fault kind, payload type hit) resp. (signal, depth, sorted kinds of the combination)",
         "assumptions": [
             "faults that splice IPC bytes between sub-streams are outside the domain: after a drop/empty/duplicate/re-id the same producer sends nothing more; follow-ups come from fresh producers with renamed schema ids; re-id to another LIVE id is not generated",
             "weakest reading of 'a main record that was present': only when no fault touched the main payload is the item count demanded",
@@ -174,7 +174,7 @@ PROPS.update({
         "technique": "metamorphic property (rapid): sequential vs concurrent execution of generated groups of producer/consumer pairs, under the Go race detector",
         "level_text": "Generated groups of 2-8 (options, history) pairs are run alone to obtain reference per-batch outcomes and canonical outputs, then all at once from a barrier in a -race build: every stream must produce exactly what it produces alone and the race detector must stay silent (GORACE=halt_on_error: a report ends the process and the driver reports the case saved before execution). Real-scheduler interleavings are sampled, not enumerated.",
         "design_ref": "DESIGN.md §7 C16",
-        "rule": "rapid draws 2-8 streams, each options x 1-5 batch interleaved-signal history (half of the groups share one option set); all cases NON-TRIVIAL (>=2 concurrent streams); DISTINCT = FNV-64 of the sorted (options, batches) vector",
+        "rule": "rapid draws 2-8 streams, each options x 1-5 batch interleaved-signal history (half of the groups share one option set; custom dictionary limits through a caller-written option); 15 % of the cases are a crowd: 1-4 long-lived streams and 100-600 short-lived neighbour streams that come and go between their first and second batch; all cases NON-TRIVIAL (>=2 concurrent streams); DISTINCT = FNV-64 of the sorted (options, batches) vector",
         "assumptions": ["interleavings are whatever the Go scheduler produces on 16 cores; the race detector sees only executed paths", "no absence proof"],
         "jobs": {
             "quick": [{"test": "TestC16", "shards": 10, "checks": 200, "timeout": 900, "race": True}],
